@@ -16,7 +16,7 @@ CLAIMED = {
  'C13': ('proof', 'ownership invariant (no element shared between message and running order), message child lists and tags never written, on all merges', '5/C13'),
  'C07': ('proof', 'RunningOrder.__add__ (completed guard for every message type through the abstract merge contract), RunningOrderEnd.merge (record added to the root, content untouched), no-spurious-completion clause on every merge, classification of a completed running order', '5/C07'),
  'C08': ('proof', 'MosFile._classify (table loop fully unrolled: complete), ElementAction._classify, from_string/from_file: class decided by the message element alone for both warning configurations (symbolic WERR), UnknownMosFileType / MosInvalidXML exactly when specified; file/str/bytes equality rests on the assumed parse contract', '5/C08'),
- 'C09': ('proof', 'MosCollection.merge loop invariant + per-iteration ghost call log: exactly one add of the freshly restored message k per iteration, strict/non-strict warning and propagation clauses; __add__ against the abstract merge contract', '5/C09'),
+ 'C09': ('proof', 'MosCollection.merge loop invariant + per-iteration ghost call log: exactly one add of the freshly restored message k per iteration, strict/non-strict warning and propagation clauses; __add__ against the abstract merge contract; MosReader.mos_object restores a fresh object and keeps no reference to it', '5/C09'),
  'C11': ('proof', 'MosCollection.__init__/_validate: accepted iff one roCreate, <=1 roDelete (exactly 1 unless allow_incomplete), equal roIDs, non-empty -- for symbolic list length and symbolic python -O flag; filtered comprehensions as monotone embeddings', '5/C11'),
  'C12': ('proof', 'safety obligations at every operation that can raise a built-in exception on every path of all merges, classification and constructors: only MosRoMgrException subclasses escape', '5/C12'),
  'C10': ('proof', 'MosReader.__lt__ / MosFile.__lt__ compare numeric message ids; from_strings / from_files hand the constructor a permutation of all inputs without adjacent inversion (sorted is an assumed contract evaluated with the real __lt__); uniqueness of the ascending arrangement is a Lean/Mathlib lemma', '5/C10'),
@@ -27,7 +27,7 @@ CLAIMED = {
  'C04': ('proof', 'carried stories/items arrive as deep copies (A-COPY isomorphism) at their place in every carrying merge; StorySend._convert_story_send_to_story_tag proved with two loop invariants (storyBody children spliced in place, only direct storyItems renamed); roReplace and roMetadataReplace content clauses', '5/C04'),
  'C14': ('proof', 'envelope clauses on every merge (exactly one roCreate, messageID and roID unchanged, at most one completion record, RO_Inv preserved) are discharged; the read-back step itself is the assumed library contract A-ET-RT, conformance-tested on seeded random trees and on reachable states in the bounded real-code check', '5/C14'),
  'C18': ('proof', 'from_file / from_string / from_s3 share one body up to the parse call (assumed contract A-ET-PARSE / A-S3: content -> tree); MosReader.from_* store message id, roID, class and the constructor of that class with the same arguments; mos_object restores through it (26 class variants); get_mos_files proved with nested loop invariants and ghost counters (every key with the suffix, all pages, in order)', '5/C18'),
- 'C19': ('proof', 'CLI.__call__ (any exception -> stderr message, status 2), detect_or_inspect (per-file loop: one Invalid line or the detect line with the class the library assigns, inspect outline, the scan always continues), do_merge (collection built with the given flags, output is the serialisation of the merged running order, to stdout or -o); the argparse option wiring is enumerated exhaustively by the bounded real-code check, not proved', '5/C19'),
+ 'C19': ('proof', 'CLI.__call__ (any exception -> stderr message, status 2), detect_or_inspect (per-file loop: one Invalid line or the detect line with the class the library assigns, inspect outline, the scan always continues), do_merge (collection built with the given flags, output is the serialisation of the merged running order, to stdout or -o), the 25 inspect() bodies never raise on a schema-shaped message; the argparse option wiring is enumerated exhaustively by the bounded real-code check, not proved', '5/C19'),
 }
 REASON_TODO = 'check not built yet (build in progress); not a statement about reachability of the technique'
 m = {
